@@ -55,6 +55,7 @@ def RetOK (s : St) (r : Ret) : Prop :=
 
 structure Inv (s : St) : Prop where
   lock   : ∀ u, (s.pc u).holdsLock = true → s.lock = some u
+  lockr  : ∀ u, s.lock = some u → (s.pc u).holdsLock = true
   flight : ∀ u, (s.pc u).inFlight = true → s.calls (s.key u) = some (s.reg u)
   prereg : ∀ u, (s.pc u).preReg = true → s.calls (s.key u) = none
   owns   : ∀ u, (s.pc u).owns = true → s.reg u < s.next ∧ s.leader (s.reg u) = u ∧ s.ekey (s.reg u) = s.key u
@@ -96,6 +97,13 @@ theorem lock_step (h : Inv s) (hs : step s t x = some s') :
     ∀ u, (s'.pc u).holdsLock = true → s'.lock = some u := by
   intro u hu
   have h1 := h.lock u
+  have h2 := h.lock t
+  close_step hs
+
+theorem lockr_step (h : Inv s) (hs : step s t x = some s') :
+    ∀ u, s'.lock = some u → (s'.pc u).holdsLock = true := by
+  intro u hu
+  have h1 := h.lockr u
   have h2 := h.lock t
   close_step hs
 
@@ -301,7 +309,7 @@ theorem rets_step (h : Inv s) (hs : step s t x = some s') : ∀ r ∈ s'.rets, R
     · exact retOK_frame h hs r (h.rets r hm)
 
 theorem inv_step (h : Inv s) (hs : step s t x = some s') : Inv s' :=
-  ⟨lock_step h hs, flight_step h hs, prereg_step h hs, owns_step h hs, wg1_step h hs, wg0_step h hs,
+  ⟨lock_step h hs, lockr_step h hs, flight_step h hs, prereg_step h hs, owns_step h hs, wg1_step h hs, wg0_step h hs,
    nores_step h hs, tmpres_step h hs, stored_step h hs, calls_step h hs, waits_step h hs, woken_step h hs,
    done_step h hs, tinv_step h hs, tlinv_step h hs, tlret_step h hs, rets_step h hs⟩
 
